@@ -481,6 +481,10 @@ pub fn c02_h3(rep: &Reporter, args: &Args) {
                 let n = chunk.min(len - sent);
                 if let Err(e) = c.send_body(id, &data[sent..sent + n], false, Duration::from_secs(30)).await { failed = Some(e); break; }
                 sent += n;
+                // keep what is in flight (sent and not yet echoed) under 128 KiB: loopback UDP buffers hold about 200 KiB, and a
+                // burst of more than 128 lost packets runs into a packet-number encoding limit of the QUIC library itself
+                let deadline = std::time::Instant::now() + Duration::from_secs(30);
+                while sent - (c.streams.get(&id).map(|s| s.body_len as usize).unwrap_or(0)) > 128 * 1024 && c.closed.is_none() && std::time::Instant::now() < deadline { c.pump_once(Duration::from_millis(10)).await; }
             }
             c.run_until(Duration::from_secs(30), |c| c.streams.get(&id).map(|s| s.body_len as usize >= len || s.reset.is_some()).unwrap_or(false)).await;
             let got = c.stream(id);
@@ -494,12 +498,46 @@ pub fn c02_h3(rep: &Reporter, args: &Args) {
         }
         // packet loss: everything the endpoint sends during a 400 ms window near the end of the download is lost (tail loss:
         // the client has nothing in flight and stays silent, so only the endpoint's own loss-detection timer can repair it)
+        // a destination that echoes at once, except that it holds the last 30 000 bytes of a 200 000-byte stream back for 300 ms:
+        // by then the client's upload is acknowledged and the client has gone silent
+        let slow_tail = {
+            let l = TcpListener::bind("127.0.0.1:0").await.expect("bind");
+            let a = l.local_addr().unwrap();
+            tokio::spawn(async move {
+                loop {
+                    let Ok((mut s, _)) = l.accept().await else { continue };
+                    tokio::spawn(async move {
+                        let mut b = vec![0u8; 65536];
+                        let (mut seen, mut held): (usize, Vec<u8>) = (0, vec![]);
+                        loop {
+                            match s.read(&mut b).await {
+                                Ok(0) | Err(_) => break,
+                                Ok(k) => {
+                                    let before = seen;
+                                    seen += k;
+                                    let cut = 170_000usize;
+                                    if seen <= cut { if s.write_all(&b[..k]).await.is_err() { break; } }
+                                    else {
+                                        let now = cut.saturating_sub(before).min(k);
+                                        if now > 0 && s.write_all(&b[..now]).await.is_err() { break; }
+                                        held.extend_from_slice(&b[now..k]);
+                                        if seen >= 200_000 { tokio::time::sleep(Duration::from_millis(300)).await; if s.write_all(&held).await.is_err() { break; } held.clear(); }
+                                    }
+                                }
+                            }
+                        }
+                    });
+                }
+            });
+            a
+        };
         for round in 0..args.qt(4u64, 16u64) {
             let Some(mut c) = h3_connect(rep, ep.addr, "main.test").await else { continue };
             let len = if round % 2 == 1 { 600_000usize } else { 200_000 };
             let key = common::fnv(format!("c02h3-loss-{}-{}", args.seed, round).as_bytes());
             let data = crate::common::prng::coded_stream(key, 0, 0, len);
-            let Ok((id, st)) = c.roundtrip("CONNECT", None, &open.to_string(), None, &[], false, false, T).await else { rep.inconclusive("h3: request failed"); continue };
+            let dest = if round % 2 == 1 { open } else { slow_tail };
+            let Ok((id, st)) = c.roundtrip("CONNECT", None, &dest.to_string(), None, &[], false, false, T).await else { rep.inconclusive("h3: request failed"); continue };
             rep.evals(1);
             rep.distinct(common::fnv(format!("c02h3|loss|{}", round).as_bytes()));
             if st.status() != Some(200) { rep.inconclusive("h3: CONNECT to the echo peer not accepted"); continue; }
@@ -513,12 +551,15 @@ pub fn c02_h3(rep: &Reporter, args: &Args) {
                 let n = 16_384.min(len - sent);
                 if let Err(e) = c.send_body(id, &data[sent..sent + n], false, Duration::from_secs(30)).await { failed = Some(e); break; }
                 sent += n;
+                let deadline = std::time::Instant::now() + Duration::from_secs(30);
+                while sent - (c.streams.get(&id).map(|s| s.body_len as usize).unwrap_or(0)) > 64 * 1024 && c.closed.is_none() && std::time::Instant::now() < deadline { c.pump_once(Duration::from_millis(10)).await; }
                 if mid && c.drop_incoming_until.is_none() && sent >= len / 2 { c.drop_incoming_until = Some(std::time::Instant::now() + Duration::from_millis(400)); t0 = std::time::Instant::now(); }
             }
-            let mark = if mid { len / 2 } else { len - 30_000 - (round as usize % 4) * 20_000 };
             if !mid {
-                // the echo is on its way: let most of it arrive, then lose what the endpoint sends for 400 ms
-                c.run_until(Duration::from_secs(20), |c| c.streams.get(&id).map(|s| s.body_len as usize >= mark).unwrap_or(false)).await;
+                // the upload is complete; the destination holds the last 30 000 bytes of the echo back for 300 ms. Let the rest
+                // arrive and the client's own packets be acknowledged (200 ms), then lose everything the endpoint sends for
+                // 400 ms: the tail of the echo, with the client silent - only the endpoint's own loss timer can repair it
+                c.run_until(Duration::from_millis(200), |_| false).await;
                 c.drop_incoming_until = Some(std::time::Instant::now() + Duration::from_millis(400));
                 t0 = std::time::Instant::now();
             }
@@ -526,7 +567,7 @@ pub fn c02_h3(rep: &Reporter, args: &Args) {
             let got = c.stream(id);
             let first_diff = got.body.iter().zip(data.iter()).position(|(a, b)| a != b);
             let w = json!({"kind":"h3-tunnel-transfer","bytes":len,"uploaded":sent,"echoed_back":got.body.len(),"first_difference":first_diff,"send_error":failed,"stream":got.summary(),
-                "loss_window_ms":400,"loss_started_at_byte":mark,"datagrams_lost":c.dropped_datagrams,"waited_ms_after_the_loss_began":t0.elapsed().as_millis() as u64,"connection":c.closed});
+                "loss_window_ms":400,"loss_started_when":if mid { "half of the upload was sent" } else { "the upload was complete (tail of the echo lost)" },"datagrams_lost":c.dropped_datagrams,"waited_ms_after_the_loss_began":t0.elapsed().as_millis() as u64,"connection":c.closed});
             if c.dropped_datagrams == 0 { rep.tally("l2 h3 loss: nothing was in flight during the loss window (not judged)", 1); }
             else if first_diff.is_some() || got.body.len() > len { rep.violation("l2 h3: bytes relayed through an HTTP/3 tunnel differ from the bytes sent", w); }
             else if got.body.len() < len { rep.violation("l2 h3: HTTP/3 tunnel stalled after packet loss (lost packets not retransmitted within 25 s)", w); }
